@@ -1,6 +1,7 @@
 import Ledger.Proofs.SchedOverdraft
 import Ledger.Sched.Writers
 import Ledger.Proofs.SchedHandles
+import Ledger.Proofs.SchedWitnesses
 
 /-!
 # C06 — no account overdrawn beyond its allowance, under any interleaving
@@ -158,16 +159,6 @@ theorem handles_discipline : ∀ t ∈ Generated.Handles.all, disciplined false 
 
 /-! ## the counterexample: a never-used (account, asset) pair -/
 
-/-- writers A and B each send 10 from the never-used pair 1 with `allowing overdraft up to 10` -/
-def cxA : Send := { l := 1, sync := false, src := 1, dst := 2, amt := 10, allow := .bounded 10 }
-def cxB : Send := { l := 1, sync := false, src := 1, dst := 3, amt := 10, allow := .bounded 10 }
-def cxWorld : World :=
-  { sess := fun s => if s = 1 then { prog := sendProg cxA true } else if s = 2 then { prog := sendProg cxB true } else {} }
-/-- A: BEGIN, GetBalances (inserts the zero row) · B: BEGIN, GetBalances (waits for A's in-progress row) ·
-    A: UpdateVolumes, InsertTransaction, InsertLog, COMMIT · B: GetBalances resumes — `ins` skips, the
-    `SELECT … FOR UPDATE` shares the statement's first snapshot, sees no row, locks nothing, reads 0 — then
-    UpdateVolumes, InsertTransaction, InsertLog, COMMIT -/
-def cxSchedule : Schedule := [1, 1, 2, 2, 1, 1, 1, 1, 2, 2, 2, 2, 2]
 
 /-- Both writers are answered success and the pair ends at −20 with an allowance of 10:
     the unrestricted `no_overdraft_any_schedule` is false. -/
@@ -177,6 +168,15 @@ theorem no_overdraft_never_used_counterexample :
     ((run cxSchedule cxWorld).vols 1).com = some (-20) ∧
     (runR cxSchedule cxWorld).2.count .blocked = 1 := by
   decide
+
+/-- The same schedule on the SQL model (LeanPG executing the REGENERATED `GetBalances` / `UpdateVolumes`
+    statements of the real store, kernel-evaluated): B's first `GetBalances` waits; retried after A's
+    commit it returns NO row (nothing locked, balance read as 0), and the pair ends with output 20. -/
+theorem no_overdraft_never_used_counterexample_sql :
+    (sqlRun Ledger.Sql.Tests.w0 sqlSchedule).2 =
+      ["ok:rows=0", "ok:rows=0", "ok:rows=0", "blocked", "ok:rows=1", "ok:rows=0", "ok:rows=0", "ok:rows=1", "ok:rows=0"] ∧
+    Ledger.Sql.Tests.rowsOf (sqlRun Ledger.Sql.Tests.w0 sqlSchedule).1 "_default.accounts_volumes" = [["l", "alice", "USD", "0", "20"]] := by
+  decide +kernel
 
 /-- the same two writers on a pair whose row is committed beforehand: B waits for A's lock, then
     reads −10 and is refused -/
